@@ -17,6 +17,7 @@ type Emitter struct {
 	optimize          bool
 	enableLineMarkers bool
 	inputFilepath     string
+	movementLabels    map[string]struct{}
 }
 
 // New creates a new Poryscript program emitter.
@@ -37,6 +38,14 @@ func (e *Emitter) Emit() (string, error) {
 	textLabels := map[string]struct{}{}
 	for _, text := range e.program.Texts {
 		textLabels[text.Name] = struct{}{}
+	}
+
+	// Do the same for movement labels, both explicit and auto-generated.
+	e.movementLabels = map[string]struct{}{}
+	for _, stmt := range e.program.TopLevelStatements {
+		if movementStmt, ok := stmt.(*ast.MovementStatement); ok {
+			e.movementLabels[movementStmt.Name.Value] = struct{}{}
+		}
 	}
 
 	i := 0
@@ -638,7 +647,7 @@ func (e *Emitter) renderChunks(chunks map[int]*chunk, scriptName string, isGloba
 			nextChunkID = -1
 		}
 		chunk := chunks[chunkID]
-		err := chunk.renderStatements(&sb, chunkLabels, textLabels, e.enableLineMarkers, e.inputFilepath)
+		err := chunk.renderStatements(&sb, chunkLabels, textLabels, e.movementLabels, e.enableLineMarkers, e.inputFilepath)
 		if err != nil {
 			return "", err
 		}
